@@ -316,7 +316,7 @@ func checkC20(c *Check, p *Program) {
 						}) {
 							bad := false
 							if s != lp.Header {
-								for rb := range reachableFrom(s, func(from, to *ssa.BasicBlock) bool { return to == lp.Header }) {
+								for rb := range reachUntil(s, lp.Header) {
 									for _, x := range rb.Instrs {
 										if _, isR := x.(*ssa.Return); isR && rb != lp.Header {
 											bad = true
